@@ -398,6 +398,34 @@ constexpr auto chrono(int seed) -> long long
     return acc;
 }
 
+// default-INITIALISED (not value-initialised) objects inside a constant expression: reading a member that has no
+// initialiser is not a constant expression (the constant evaluator is exact about indeterminate values).
+// inplace_vector is not here: its size member has no initialiser (known finding KF-C02-inplace-vector-...).
+constexpr auto dflt(int seed) -> long long
+{
+    etl::static_vector<int, 4> v;
+    etl::inplace_string<7> s7;
+    etl::inplace_string<16> s16;
+    etl::string_view sv;
+    etl::span<int> sp;
+    etl::static_set<int, 4> ss;
+    etl::flat_set<int, etl::static_vector<int, 4>> fs;
+    etl::optional<int> o;
+    etl::variant<int, long> va;
+    etl::expected<int, int> ex;
+    etl::bitset<70> b;
+    etl::pair<int, long> p;
+    etl::tuple<int, long> t;
+    etl::chrono::seconds d;
+    etl::dextents<int, 2> e;
+    etl::mdspan<int, etl::dextents<etl::size_t, 2>> md;
+    long long acc = static_cast<long long>(v.size() + s7.size() + s16.size() + sv.size() + sp.size() + ss.size() + fs.size());
+    acc += (o.has_value() ? 1 : 0) + static_cast<long long>(va.index()) + *etl::get_if<0>(&va) + (ex.has_value() ? *ex : -1);
+    acc += static_cast<long long>(b.count()) + p.first + p.second + etl::get<0>(t) + etl::get<1>(t) + d.count();
+    acc += e.extent(0) + e.extent(1) + static_cast<long long>(md.size()) + s7.c_str()[0] + s16.c_str()[0] + seed;
+    return acc;
+}
+
 }   // namespace ce
 
 // each battery returns a checksum so that nothing is optimised away; no std:: containers inside
@@ -538,7 +566,7 @@ static long long battery(int which, int seed)
 constexpr int n_batteries = 16;
 
 // the constexpr batteries by number; ce_table holds their values as computed by the constant evaluator
-constexpr int ce_count    = 12;
+constexpr int ce_count    = 13;
 constexpr int ce_seeds[3] = {0, 1, 7};
 constexpr auto ce_run(int which, int seed) -> long long
 {
@@ -554,14 +582,15 @@ constexpr auto ce_run(int which, int seed) -> long long
     case 8: return ce::bits(seed);
     case 9: return ce::views(seed);
     case 10: return ce::wrap(seed);
-    default: return ce::chrono(seed);
+    case 11: return ce::chrono(seed);
+    default: return ce::dflt(seed);
     }
 }
 #if defined(C02_CE)   // variant `ce` only: a battery that is UB for the constant evaluator makes THAT variant ill-formed,
                       // the other variants still build and run the same batteries at run time
 #define C02_ROW(w) {ce_run(w, 0), ce_run(w, 1), ce_run(w, 7)}
 constexpr long long ce_table[ce_count][3] = {C02_ROW(0), C02_ROW(1), C02_ROW(2), C02_ROW(3), C02_ROW(4), C02_ROW(5),
-                                             C02_ROW(6), C02_ROW(7), C02_ROW(8), C02_ROW(9), C02_ROW(10), C02_ROW(11)};
+                                             C02_ROW(6), C02_ROW(7), C02_ROW(8), C02_ROW(9), C02_ROW(10), C02_ROW(11), C02_ROW(12)};
 #endif
 
 template <typename T, typename F>
